@@ -12,11 +12,11 @@ import (
 
 // RefTx is the reference model's view of one log entry.
 type RefTx struct {
-	Index    int
+	Index      int
 	IsRollback bool
 	Rollback   int // the index a rollback entry asks to roll back
-	Ops      []model.Op
-	Targets  []string
+	Ops        []model.Op
+	Targets    []string
 	// Outcome: "committed" (merged into every target), "invalid" (model
 	// rejected it), "forbidden"/"notfound" (rollback refused).
 	Outcome string
@@ -35,6 +35,40 @@ type Ref struct {
 	Device   map[string]model.Config // what a connected, synchronized device must hold
 	CurIndex map[string]int          // index of the change each target's configuration reflects
 	Txs      []*RefTx
+	// Past records, per target and path, every value the path has held after an
+	// accepted transaction ("" = absent); used to recognise stale write-backs.
+	Past map[string]map[string]map[string]bool
+}
+
+func (r *Ref) notePast(t string) {
+	if r.Past == nil {
+		r.Past = map[string]map[string]map[string]bool{}
+	}
+	if r.Past[t] == nil {
+		r.Past[t] = map[string]map[string]bool{}
+	}
+	for k, l := range r.Stored[t] {
+		if r.Past[t][k] == nil {
+			r.Past[t][k] = map[string]bool{"": true}
+		}
+		r.Past[t][k][l.Value.Key()] = true
+	}
+	for k := range r.Past[t] {
+		if _, ok := r.Stored[t][k]; !ok {
+			r.Past[t][k][""] = true
+		}
+	}
+}
+
+// WasEver reports whether path k of target t held value v ("" = was absent)
+// after some earlier accepted transaction.
+func (r *Ref) WasEver(t, k, v string) bool {
+	if v == "" {
+		if r.Past[t][k] == nil {
+			return true
+		}
+	}
+	return r.Past[t][k][v]
 }
 
 // NewRef creates an empty reference system.
@@ -108,6 +142,7 @@ func (r *Ref) Change(ops []model.Op) *RefTx {
 		tx.before[t] = r.Stored[t]
 		tx.after[t] = cands[t]
 		tx.prevIdx[t] = r.CurIndex[t]
+		r.notePast(t)
 		r.Stored[t] = cands[t]
 		r.CurIndex[t] = tx.Index
 		if c := refusalOf(opsFor(ops, t)); c != codes.OK {
@@ -181,6 +216,7 @@ func (r *Ref) RollbackOf(idx int) *RefTx {
 			d.Apply(rb, nil)
 			r.Device[t] = d
 		}
+		r.notePast(t)
 		st := r.Stored[t].Clone()
 		st.Apply(rb, nil)
 		r.Stored[t] = st
